@@ -23,6 +23,8 @@ QUALS = '''
 Qualifier Key : boolean = false, Scope(property, reference), Flavor(DisableOverride, ToSubclass);
 Qualifier Association : boolean = false, Scope(association), Flavor(DisableOverride, ToSubclass);
 Qualifier Description : string = null, Scope(any), Flavor(EnableOverride, ToSubclass, Translatable);
+Qualifier EmbeddedInstance : string = null, Scope(property, method, parameter);
+Qualifier EmbeddedObject : boolean = false, Scope(property, method, parameter), Flavor(DisableOverride, ToSubclass);
 '''
 
 INT_RANGE = {'uint8': (0, 255), 'sint8': (-128, 127), 'uint16': (0, 65535), 'sint16': (-32768, 32767),
@@ -46,7 +48,8 @@ class TST_P { [Key] string name; uint32 v; string arr[]; };
 class TST_Q : TST_P { string extra = "dflt"; };
 class TST_R : TST_Q { uint16 deep[]; boolean flag = true; };
 [Association] class TST_L { [Key] TST_P REF parent; [Key] TST_P REF child; uint8 w; };
-class TST_E { [Key] uint32 id = 7; [Key] boolean kb; uint16 d = 3; boolean b; datetime t; real32 r; sint64 big[]; };
+class TST_E { [Key] uint32 id = 7; [Key] boolean kb; uint16 d = 3; boolean b; datetime t; real32 r; sint64 big[];
+              [EmbeddedInstance("TST_Q")] string ei; [EmbeddedObject] string eo; [EmbeddedInstance("TST_P")] string eia[]; };
 '''
     s2 = QUALS + '''
 class Mx_Base { [Key] string CreationClassName; [Key] string Name; [Key] uint16 Kind; string Caption; char16 c; };
@@ -84,6 +87,10 @@ def random_schema(rng, idx):
     for r in range(n_roots):
         cname = pre + rng.choice(['Root', 'BASE', 'thing']) + str(r)
         body = [decl(True) for _ in range(rng.choice([1, 1, 2, 3]))] + [decl() for _ in range(rng.randint(0, 4))]
+        if roots and rng.random() < 0.6:
+            body.append('[EmbeddedInstance("%s")] string Emb%d%s;' % (rng.choice(roots), r, rng.choice(['', '[]'])))
+        if rng.random() < 0.3:
+            body.append('[EmbeddedObject] string EmbObj%d;' % r)
         lines.append('class %s { %s };' % (cname, ' '.join(body)))
         roots.append(cname)
         parents = [cname]
@@ -139,6 +146,11 @@ def to_py(t, raw):
         return None
     if isinstance(raw, list):
         return [to_py(t, x) for x in raw]
+    if isinstance(raw, dict) and 'emb' in raw:
+        if raw['emb'] == 'cls':
+            return pywbem.CIMClass(raw['cls'])
+        return pywbem.CIMInstance(raw['cls'], properties=[
+            pywbem.CIMProperty(n, to_py(pt, v), type=pt) for n, pt, v in raw['props']])
     if t == 'string':
         return raw
     if t == 'char16':
@@ -177,8 +189,19 @@ class Unsupported(Exception):
     pass
 
 
+def emb_text(v):
+    """canonical text of an embedded object (opaque for the model; equality of texts = equality of objects)"""
+    import pywbem
+    if isinstance(v, pywbem.CIMClass):
+        return 'class ' + v.classname
+    return json.dumps([v.classname, sorted([k.lower(), p.type, bool(p.is_array), repr(p.value)]
+                                           for k, p in v.properties.items())])
+
+
 def enc_scalar(v):
     import pywbem
+    if isinstance(v, (pywbem.CIMInstance, pywbem.CIMClass)):
+        return {'o': [common.cps('emb'), common.cps(emb_text(v))]}
     if isinstance(v, bool):
         return {'b': v}
     if isinstance(v, pywbem.CIMDateTime):
@@ -208,8 +231,11 @@ def enc_path(p, depth=0):
 
 
 def enc_val(v):
+    import pywbem
     if v is None:
         return None
+    if isinstance(v, (pywbem.CIMInstance, pywbem.CIMClass)):
+        return {'e': [isinstance(v, pywbem.CIMClass), common.cps(v.classname), common.cps(emb_text(v))]}
     if isinstance(v, list):
         return {'a': [None if x is None else enc_scalar(x) for x in v]}
     return enc_kv(v)
@@ -253,7 +279,10 @@ def enc_class(c):
     props = []
     for p in c.properties.values():
         props.append({'n': common.cps(p.name), 't': common.cps(p.type), 'a': bool(p.is_array),
-                      'key': 'key' in p.qualifiers, 'd': enc_val(p.value)})
+                      'key': 'key' in p.qualifiers, 'd': enc_val(p.value),
+                      'ei': common.cps(p.qualifiers['EmbeddedInstance'].value)
+                      if 'EmbeddedInstance' in p.qualifiers and p.qualifiers['EmbeddedInstance'].value is not None else None,
+                      'eo': 'EmbeddedObject' in p.qualifiers})
     return {'name': common.cps(c.classname), 'super': None if c.superclass is None else common.cps(c.superclass),
             'assoc': bool(c.qualifiers.get('Association', False)), 'props': props}
 
@@ -291,7 +320,9 @@ def class_info(mof):
             info[k.classname] = {
                 'name': k.classname, 'super': k.superclass, 'assoc': bool(k.qualifiers.get('Association', False)),
                 'props': [{'n': p.name, 't': p.type, 'a': bool(p.is_array), 'key': 'key' in p.qualifiers,
-                           'refcls': p.reference_class} for p in k.properties.values()]}
+                           'refcls': p.reference_class,
+                           'ei': p.qualifiers['EmbeddedInstance'].value if 'EmbeddedInstance' in p.qualifiers else None,
+                           'eo': 'EmbeddedObject' in p.qualifiers} for p in k.properties.values()]}
         for n, d in info.items():
             anc, s = [], d['super']
             while s is not None:
@@ -336,6 +367,54 @@ def dump_state(conn):
     return out
 
 
+def _lowc(cpsl):
+    return None if cpsl is None else [c + 32 if 65 <= c <= 90 else c for c in cpsl]
+
+
+def loose_kv(v):
+    if v is not None and 'r' in v:
+        return {'r': loose_path(v['r'])}
+    if v is not None and 'b' in v:
+        return {'i': '1' if v['b'] else '0'}
+    return v
+
+
+def loose_path(p):
+    if p is None:
+        return None
+    return {'c': _lowc(p['c']), 'n': _lowc(p['n']), 'h': _lowc(p['h']),
+            'k': sorted(([_lowc(k), loose_kv(v)] for k, v in p['k']), key=json.dumps)}
+
+
+def loose_props(ps):
+    return sorted(({'n': _lowc(p['n']), 't': p['t'], 'a': p['a'],
+                    'v': loose_kv(p['v']) if p['v'] is not None and 'a' not in p['v'] else p['v']} for p in ps), key=json.dumps)
+
+
+def loose_out(o):
+    """outcome modulo what the property does not constrain: lexical case of names, order of keybindings,
+    order of the enumerated objects"""
+    if 'ok' not in o or o['ok'] is None:
+        return o
+    ok = o['ok']
+    if 'path' in ok:
+        return {'ok': {'path': loose_path(ok['path'])}}
+    li = lambda i: {'c': _lowc(i['c']), 'path': loose_path(i['path']), 'p': loose_props(i['p']),
+                    'x': [i.get('quals'), i.get('propattrs')]}
+    if 'inst' in ok:
+        return {'ok': {'inst': li(ok['inst'])}}
+    if 'insts' in ok:
+        return {'ok': {'insts': sorted((li(i) for i in ok['insts']), key=json.dumps)}}
+    return {'ok': {'paths': sorted((loose_path(p) for p in ok['paths']), key=json.dumps)}}
+
+
+def loose_state(st):
+    return [{'name': _lowc(e['name']),
+             'insts': sorted(({'key': loose_path(s['key']), 'path': loose_path(s['path']),
+                               'inst': {'c': _lowc(s['inst']['c']), 'p': loose_props(s['inst']['p'])}} for s in e['insts']),
+                             key=json.dumps)} for e in st]
+
+
 def canon_model_state(st):
     return [{'name': e['name'], 'insts': [{'key': s['key'], 'path': s['path'],
                                            'inst': dict(s['inst'], p=sort_props(s['inst']['p']))} for s in e['insts']]}
@@ -363,6 +442,7 @@ class Gen:
         self.info = class_info(schema['mof'])
         self.names = list(self.info)
         self.nss = [n['name'] for n in schema['nss']]
+        self.dirty = False
         self.pool = []       # instance descriptors that were (tried to be) created: {'ns','cls','keys':[(n,t,v)],'props'}
 
     def ns_variant(self, ns):
@@ -398,9 +478,44 @@ class Gen:
             return self.ref_value(p, ns)
         if rng.random() < 0.08:
             return None
+        if p.get('ei') or p.get('eo'):
+            one = lambda: self.emb_value(p)
+            return [one() for _ in range(rng.randint(0, 2))] if p['a'] else one()
+        if p['t'] == 'string' and not p['a'] and not p.get('key') and rng.random() < 0.02:
+            self.dirty = True
+            return self.emb_value(p)            # embedded object in a plain string property
         if p['a']:
             return [None if rng.random() < 0.1 else gen_raw(rng, p['t']) for _ in range(rng.randint(0, 3))]
         return gen_raw(rng, p['t'])
+
+    def emb_value(self, p):
+        """raw embedded object for a property declared with EmbeddedInstance(cls) / EmbeddedObject"""
+        rng = self.rng
+        plain = [n for n in self.names if not self.info[n]['assoc']]
+        decl = p.get('ei')
+        r = rng.random()
+        if p.get('eo') and r < 0.25:
+            return {'emb': 'cls', 'cls': rng.choice(self.names + ['Unknown_Class'])}
+        if decl and r < 0.75:
+            fam = [n for n in plain if n.lower() == decl.lower() or
+                   decl.lower() in [a.lower() for a in self.info[n]['ancestors']]]
+            cn = rng.choice(fam) if fam else decl
+            cn = recase(rng, cn) if rng.random() < 0.2 else cn
+        elif r < 0.92:
+            cn = rng.choice(plain)
+            if decl:
+                self.dirty = True
+        else:
+            cn = 'Unknown_Class'
+            if decl:
+                self.dirty = True
+        c = self.info.get(cn)
+        props = []
+        if c:
+            for q in c['props']:
+                if q['t'] != 'reference' and not q['a'] and not q.get('ei') and not q.get('eo') and rng.random() < 0.5:
+                    props.append([q['n'], q['t'], gen_raw(rng, q['t'])])
+        return {'emb': 'inst', 'cls': cn, 'props': props}
 
     def ref_value(self, p, ns):
         """path spec for a reference property: mostly an existing instance of a suitable class"""
@@ -408,30 +523,35 @@ class Gen:
         r = rng.random()
         cands = [d for d in self.pool if not self.info[d['cls']]['assoc']]
         same = [d for d in cands if d['ns'].lower() == ns.lower()]
-        if r < 0.05:
+        if r < 0.03:
+            self.dirty = True
             return None
-        if cands and r < 0.85:
-            d = rng.choice(same if same and rng.random() < 0.7 else cands)
+        if cands and r < 0.97:
+            d = rng.choice(same if same and rng.random() < 0.6 else cands)
             ps = self.path_of(d)
         else:
+            self.dirty = True
             root = p.get('refcls') or rng.choice(self.names)
             root = root if root in self.info else rng.choice(self.names)
             ps = {'cls': root, 'ns': ns, 'host': None,
                   'keys': [[q['n'], q['t'], gen_raw(rng, q['t'])] for q in self.info[root]['props']
                            if q['key'] and q['t'] != 'reference']}
         r2 = rng.random()
-        if r2 < 0.05:
-            ps['ns'] = None
-        elif r2 < 0.10:
-            ps['host'] = 'srv1:5989'
-        elif r2 < 0.22:
+        if r2 < 0.12:
             ps['ns'] = recase(rng, ps['ns'])
-        elif r2 < 0.26:
-            ps['ns'] = 'root/doesnotexist'
-        elif r2 < 0.29 and ps['keys']:
-            ps['keys'][0][2] = gen_raw(rng, ps['keys'][0][1])
-        elif r2 < 0.31 and self.thorough:
-            ps['keys'] = []
+        elif r2 < 0.19:
+            self.dirty = True
+            r3 = rng.random()
+            if r3 < 0.2:
+                ps['ns'] = None
+            elif r3 < 0.4:
+                ps['host'] = 'srv1:5989'
+            elif r3 < 0.6:
+                ps['ns'] = 'root/doesnotexist'
+            elif r3 < 0.85 and ps['keys']:
+                ps['keys'][0][2] = gen_raw(rng, ps['keys'][0][1])
+            else:
+                ps['keys'] = []
         return ps
 
     def path_of(self, d):
@@ -442,8 +562,14 @@ class Gen:
         rng = self.rng
         ps = copy.deepcopy(ps)
         n = rng.choice([0, 0, 0, 1, 1, 2, 3])
+        damaging = rng.random() < 0.3          # otherwise only variants that must not change the outcome
         for _ in range(n):
             r = rng.random()
+            if not damaging:
+                r = rng.choice([0.1, 0.2, 0.35, 0.57, 0.62, 0.92, 0.97, 0.5])
+                if r == 0.5:
+                    ps['ns'] = recase(rng, ps['ns']) if ps['ns'] else ps['ns']
+                    continue
             if r < 0.16:
                 ps['cls'] = recase(rng, ps['cls'])
             elif r < 0.30:
@@ -509,13 +635,38 @@ class Gen:
             pl.append(pl[0])
         return pl
 
+    def fault(self, props, prob):
+        """with probability prob: one wrong type / wrong arrayness / undeclared property"""
+        rng = self.rng
+        if rng.random() >= prob:
+            return
+        self.dirty = True
+        cands = [p for p in props if p['t'] != 'reference' and not isinstance(p['v'], dict)
+                 and not (isinstance(p['v'], list) and any(isinstance(x, dict) for x in p['v']))]
+        r = rng.random()
+        if r < 0.4 and cands:
+            p = rng.choice(cands)
+            nt = rng.choice([t for t in ALL_TYPES if t != p['t']])
+            p['t'] = nt
+            p['v'] = gen_raw(rng, nt) if not p['a'] else [gen_raw(rng, nt)]
+        elif r < 0.7 and cands:
+            p = rng.choice(cands)
+            p['a'] = not p['a']
+            p['v'] = [gen_raw(rng, p['t'])] if p['a'] else gen_raw(rng, p['t'])
+        else:
+            props.append({'n': 'Undeclared', 't': 'string', 'a': False, 'v': 'u'})
+
     def op_create(self):
         rng = self.rng
         cn = rng.choice(self.names)
+        if self.info[cn]['assoc'] and rng.random() < 0.85 and \
+                len([d for d in self.pool if not self.info[d['cls']]['assoc']]) < 2:
+            cn = rng.choice([n for n in self.names if not self.info[n]['assoc']])
         c = self.info[cn]
         ns = rng.choice(self.nss)
         props, keys = [], []
         dup = None
+        self.dirty = False
         if self.pool and rng.random() < 0.15:
             dup = rng.choice(self.pool)
             cn, c, ns = dup['cls'], self.info[dup['cls']], dup['ns']
@@ -526,33 +677,36 @@ class Gen:
                     v = copy.deepcopy(kv[0][2]) if kv else self.value(p, ns)
                 else:
                     v = self.value(p, ns)
-                    if v is None and rng.random() < 0.8:
-                        v = self.value(p, ns)
-                if rng.random() < 0.04:
+                    for _ in range(3):
+                        if v is None and rng.random() < 0.9:
+                            v = self.value(p, ns)
+                if rng.random() < 0.02:
+                    self.dirty = True
                     continue                           # missing key
                 props.append({'n': p['n'], 't': p['t'], 'a': p['a'], 'v': v})
                 keys.append([p['n'], p['t'], v])
             elif rng.random() < 0.7:
                 props.append({'n': p['n'], 't': p['t'], 'a': p['a'], 'v': self.value(p, ns)})
-        # faults and case variants
+        # case variants (harmless) and, for about one instance in five, one fault
         for p in props:
-            r = rng.random()
-            if r < 0.15:
+            if rng.random() < 0.15:
                 p['n'] = recase(rng, p['n'])
-            elif r < 0.18 and p['t'] != 'reference':
-                nt = rng.choice(ALL_TYPES)
-                p['t'] = nt
-                p['v'] = gen_raw(rng, nt) if not p['a'] else [gen_raw(rng, nt)]
-            elif r < 0.21 and p['t'] != 'reference':
-                p['a'] = not p['a']
-                p['v'] = [gen_raw(rng, p['t'])] if p['a'] else gen_raw(rng, p['t'])
-        if rng.random() < 0.05:
-            props.append({'n': 'Undeclared', 't': 'string', 'a': False, 'v': 'u'})
+        self.fault(props, 0.2)
         rng.shuffle(props) if rng.random() < 0.3 else None
-        ispec = {'cls': self.cls_variant(cn), 'props': props}
-        if all(k[2] is not None for k in keys):
+        icls = self.cls_variant(cn)
+        nsarg = self.opt_ns(ns)
+        if icls.lower() != cn.lower() or (nsarg is not None and nsarg.lower() != ns.lower()) or \
+                cn in [x for n_ in self.schema['nss'] if n_['name'].lower() == ns.lower() for x in n_['drop']]:
+            self.dirty = True
+        ispec = {'cls': icls, 'props': props}
+        if all(k[2] is not None for k in keys) and (not self.dirty or rng.random() < 0.25):
             self.pool.append({'ns': ns, 'cls': cn, 'keys': keys})
-        return {'op': 'create', 'ns': self.opt_ns(ns), 'inst': ispec}
+            # an association whose ends name other namespaces also lives there: address those copies too
+            for p in props:
+                if p['t'] == 'reference' and isinstance(p['v'], dict) and p['v'].get('ns') and \
+                        p['v']['ns'].lower() != ns.lower() and p['v']['ns'].lower() in [n.lower() for n in self.nss]:
+                    self.pool.append({'ns': p['v']['ns'], 'cls': cn, 'keys': keys})
+        return {'op': 'create', 'ns': nsarg, 'inst': ispec}
 
     def op_modify(self):
         rng = self.rng
@@ -573,14 +727,9 @@ class Gen:
                 elif r < 0.5:
                     props.append({'n': p['n'], 't': p['t'], 'a': p['a'], 'v': self.value(p, base_ns)})
         for p in props:
-            r = rng.random()
-            if r < 0.15:
+            if rng.random() < 0.15:
                 p['n'] = recase(rng, p['n'])
-            elif r < 0.18 and p['t'] != 'reference':
-                nt = rng.choice(ALL_TYPES)
-                p['t'], p['v'] = nt, (gen_raw(rng, nt) if not p['a'] else [gen_raw(rng, nt)])
-        if rng.random() < 0.04:
-            props.append({'n': 'Undeclared', 't': 'string', 'a': False, 'v': 'u'})
+        self.fault(props, 0.12)
         icls = ps['cls']
         r = rng.random()
         if r < 0.15:
@@ -658,6 +807,9 @@ def mutate_inst(rng, i):
             v.append('mut')               # in place: the list object itself
         elif isinstance(v, pywbem.CIMInstanceName):
             mutate_path(rng, v)
+        elif isinstance(v, pywbem.CIMInstance):
+            v.classname = 'Mutated_' + v.classname
+            v.properties['Injected'] = pywbem.CIMProperty('Injected', 'zz')
         pr.value = None
         pr.name = 'M' + pr.name
     i.properties['Injected'] = pywbem.CIMProperty('Injected', 'zz')
@@ -793,6 +945,8 @@ def mkkey(p, ns):
 def nval(v):
     if v is None:
         return None
+    if 'e' in v:
+        return ('e', v['e'][0], tuple(v['e'][1]), tuple(v['e'][2]))
     if 'a' in v:
         return ('a', tuple(None if x is None else nscalar(x) for x in v['a']))
     return nkv(v)
@@ -839,9 +993,31 @@ class RefMap:
             seen += 1
         return False
 
-    def valid(self, c, p):
+    def is_subclass(self, ns, k, sup):
+        """None when a class is not in the repository of the namespace"""
+        for _ in range(60):
+            kc = self.classes[ns].get(k)
+            if kc is None:
+                return None
+            if k == sup:
+                return True
+            if kc['super'] is None:
+                return False if sup in self.classes[ns] else None
+            k = low(kc['super'])
+        return None
+
+    def valid(self, c, p, ns):
         d = self.decl(c, p['n'])
-        return d is not None and d['t'] == p['t'] and d['a'] == p['a']
+        if d is None or d['t'] != p['t'] or d['a'] != p['a']:
+            return False
+        v = p['v']
+        if v is not None and 'e' in v:
+            if v['e'][0]:
+                return bool(d.get('eo'))
+            if d.get('ei') is not None:
+                return self.is_subclass(ns, low(v['e'][1]), low(d['ei'])) is True
+            return bool(d.get('eo'))
+        return True
 
     def endpoint_ok(self, v):
         if v is None:
@@ -881,7 +1057,7 @@ class RefMap:
             c = self.classes[ns].get(low(inst['c']))
             if c is None:
                 return ('err', CLS_INVALID)
-            if not all(self.valid(c, p) for p in inst['p']):
+            if not all(self.valid(c, p, ns) for p in inst['p']):
                 return ('err', PARAM)
             if c['assoc'] and not all(self.endpoint_ok(p['v']) for p in inst['p'] if tuple(p['t']) == REFT):
                 return ('err', PARAM)
@@ -928,7 +1104,7 @@ class RefMap:
             if pl is not None and any(self.decl(c, pn) is None for pn in pl):
                 return ('err', PARAM)
             for p in op['inst']['p']:
-                if not self.valid(c, p):
+                if not self.valid(c, p, ns):
                     return ('err', PARAM)
                 d = self.decl(c, p['n'])
                 if d['key'] and (low(p['n']) not in old['props'] or old['props'][low(p['n'])][2] != nval(p['v'])):
@@ -1149,12 +1325,22 @@ def run(run):
             run.disagree(case, ans, outs, 'driver rejected the request')
         else:
             mouts = [canon_model_out(o) for o in ans['outs']]
-            if mouts != outs:
-                i = next((k for k in range(len(outs)) if k >= len(mouts) or mouts[k] != outs[k]), None)
-                run.disagree(case, {'index': i, 'out': mouts[i] if i is not None and i < len(mouts) else None},
-                             {'index': i, 'out': outs[i] if i is not None else None}, 'outcome of operation %s' % i)
-            elif canon_model_state(ans['state']) != state:
-                run.disagree(case, canon_model_state(ans['state']), state, 'final repository contents')
+            mstate = canon_model_state(ans['state'])
+            if mouts != outs or mstate != state:
+                # exact (case- and order-preserving) comparison failed: is it more than case / order?
+                lm, lr = [loose_out(o) for o in mouts], [loose_out(o) for o in outs]
+                if lm != lr:
+                    i = next((k for k in range(len(outs)) if k >= len(lm) or lm[k] != lr[k]), None)
+                    run.disagree(case, {'index': i, 'out': mouts[i] if i is not None and i < len(mouts) else None},
+                                 {'index': i, 'out': outs[i] if i is not None else None}, 'outcome of operation %s' % i)
+                elif loose_state(mstate) != loose_state(state):
+                    run.disagree(case, mstate, state, 'final repository contents')
+                else:
+                    run.count('K:differs_from_model_only_in_case_or_order')
+                    if not any(n.startswith('model and code differ only') for n in run.notes):
+                        run.notes.append('model and code differ only in lexical case of names / order of keybindings or of '
+                                         'enumerated objects on some histories (not constrained by the property; the model '
+                                         'should be re-synchronised)')
             if not ans.get('specAgrees'):
                 run.count('model_vs_spec_disagree')
                 run.disagree(case, 'Spec run differs from Model run (refinement theorem instance fails)', None, 'model vs spec')
